@@ -75,6 +75,36 @@ def run(pid, tier):
         r = subprocess.run([race, "purity-run", "-mode", "conc", "-in", sf, "-out", so, "-reps", "4" if tier == "quick" else "20"], env=env, stdout=subprocess.PIPE, stderr=subprocess.PIPE, text=True, timeout=3000)
         if r.returncode != 0:
             raise Infra("race build of the harness failed to run the scenarios:\n" + (r.stderr or "")[-3000:])
+        # cold concurrent first use: one fresh process of the race build per operation, eight goroutines on distinct objects from a
+        # barrier, nothing called before (objects decoded without the library)
+        dump = sc.path("pool_dump.json")
+        open(dump, "w").write(run_harness(binary, ["purity-run", "-mode", "dump"]).strip().split("\n")[-1])
+        cc_traces = []
+        for op in sorted({p[0] for p in pairs}):
+            for rep in range(2 if tier == "quick" else 6):
+                cr = subprocess.run([race, "purity-run", "-mode", "coldconc", "-op", op, "-models", dump], env=env, stdout=subprocess.PIPE, stderr=subprocess.PIPE, text=True, timeout=600)
+                if cr.returncode != 0:
+                    raise Infra("race build of the harness failed in cold-concurrent mode (%s):\n%s" % (op, (cr.stderr or "")[-2000:]))
+                o = json.loads(cr.stdout.strip().split("\n")[-1])
+                chk.add("cold_concurrent_first_uses")
+                rep_ = {"mode": "cold concurrent first use", "op": op, "objects": o["objs"]}
+                # the same execution as a trace for the specification: cold results first, then the overlapping calls
+                evs = []
+                for obj in sorted(set(o["objs"])):
+                    evs += [{"ev": "begin", "p": 0, "op": op, "obj": obj}, {"ev": "end", "p": 0, "res": cold[(op, obj)]}]
+                evs += [{"ev": "begin", "p": i + 1, "op": op, "obj": obj} for i, obj in enumerate(o["objs"])]
+                if "WARNING: DATA RACE" in cr.stderr:
+                    evs.append({"ev": "write", "p": 0, "obj": o["objs"][0]})
+                evs += [{"ev": "end", "p": i + 1, "res": res} for i, res in enumerate(o["results"])]
+                cc_traces.append({"id": "cc-%s-%d" % (op, rep), "events": evs})
+                if "WARNING: DATA RACE" in cr.stderr:
+                    chk.violation("data race reported by the race detector when the first use of %s in a process is concurrent (distinct objects %s)" % (op, sorted(set(o["objs"]))),
+                                  dict(rep_, report=cr.stderr[:3000]))
+                    break
+                bad = [(obj, res) for obj, res in zip(o["objs"], o["results"]) if res != cold[(op, obj)]]
+                if bad:
+                    chk.violation("result of %s(%s) differs when the first use in a process is concurrent" % (op, bad[0][0]), dict(rep_, observed=bad[0][1], cold=cold[(op, bad[0][0])]))
+                    break
         # attribute race reports to scenarios
         races = {}
         cur = None
@@ -104,6 +134,8 @@ def run(pid, tier):
                     first_begin_done = True
                     shared_objs = [c[1] for c in t["calls"] if c[1].startswith("m_")] or [t["calls"][0][1]]
                     ev2.append({"ev": "write", "p": 0, "obj": shared_objs[0]})
+                if e["ev"] == "mutated":
+                    chk.violation("the error value %s(%s) returned reads differently after the calls that followed (%s)" % (e["op"], e["obj"], t["calls"]), rep)
                 if e["ev"] == "write":
                     chk.violation("%s: input %s was modified by a call (%s)" % (t["kind"], e["obj"], t["calls"]), rep)
                 if e["ev"] == "end":
@@ -119,6 +151,7 @@ def run(pid, tier):
                 chk.violation("data race reported by the race detector while running %s concurrently (%s)" % (t["calls"], "shared object" if t["shared"] else "private copies"),
                               dict(rep, report=(m.group(1) if m else "")[:3000]))
             vtraces.append({"id": t["id"], "events": ev2})
+        vtraces += cc_traces
         tf = sc.path("purity_traces.ndjson")
         write_ndjson(tf, vtraces)
         tv = run_tlc("Purity", TRACE_CFG, sc, defs=defs, data_files={"purity_traces.ndjson": tf}, timeout=3000)
@@ -129,7 +162,7 @@ def run(pid, tier):
         log("executed %d histories (warm process) and %d scenarios (-race, barrier start); TLC validated %d recorded executions (%d states)%s" % (
             len(histories), len(scenarios), len(vtraces), tv.distinct, "" if not tv.violated else ": " + ", ".join(tv.violated)))
         chk.cov.update(evaluations=chk.cov.get("calls_compared", 0), distinct_nontrivial=len(histories) + len(scenarios),
-                       rule="histories = all sequences of <= %d compatible (operation, object) calls over 11 operations and 13 pooled objects (thorough: length 3 sampled at 15%%); scenarios = all unordered "
+                       rule="histories = all sequences of <= %d compatible (operation, object) calls over 21 operations (every validator on its own) and 16 pooled objects (thorough: length 3 sampled at 15%%); scenarios = all unordered "
                             "pairs of calls, on a shared model or private clones, repeated from a start barrier under the race detector; every call result compared with a cold subprocess; distinct = "
                             "distinct histories + scenarios, non-trivial = all (single calls are the cold runs)" % maxlen,
                        states=hist.distinct + scen.distinct + tv.distinct, transitions=hist.generated + scen.generated + tv.generated,
